@@ -71,7 +71,12 @@ def _layout(regs, unit: int, origin: int):
 
 def _image_geometry(case, spans, gran: int, maxlen: int):
     """base address and length of the image; `snap` moves the image end next to a region edge."""
-    base = case["origin"] + case["base"] * gran
+    b = case["base"]
+    if isinstance(b, dict):  # anchored at a region edge
+        edges = [e for s in spans for e in s]
+        base = max(case["origin"] - case["origin"] % 4096, edges[b["edge"] % len(edges)] + b["delta"] * gran)
+    else:
+        base = case["origin"] + b * gran
     n = max(1, min(case["len"], maxlen))
     snap = case.get("snap")
     if snap is not None:
@@ -100,14 +105,14 @@ def _classify(o: Oracle, base: int, n: int, spans, unit: int, active) -> None:
         o.label("touching_regions")
 
 
-def _compare(o: Oracle, sub: str, dec: bytes, image: bytes, base: int, active) -> None:
+def _compare(o: Oracle, sub: str, dec: bytes, image: bytes, base: int, active, bypass=None) -> None:
     """dec = what the engine model reads; must equal the plaintext on every byte of the image."""
     n = len(image)
     if dec[:n] == image:
         return
     off = next(i for i in range(n) if i >= len(dec) or dec[i] != image[i])
     addr = base + (off & ~15)
-    kind = "inside_range_not_plaintext" if active(addr) else "outside_range_modified"
+    kind = "inside_range_not_plaintext" if active(addr) else "bypass_region_modified" if bypass and bypass(addr) else "outside_range_modified"
     o.fail(sub, kind, "first differing byte at offset 0x%x (address 0x%x); image base 0x%x length 0x%x" % (off, base + off, base, n))
 
 
@@ -144,13 +149,16 @@ def _regions(extra: dict, max_gap: int, max_n: int):
 
 def _geometry(gran_per_unit: int, max_units: int, maxlen: int):
     """common image placement fields: base in granules relative to the origin, length, optional snap to an edge, cut points."""
+    g = gran_per_unit
+    anchor = st.fixed_dictionaries({"edge": st.integers(0, 7), "delta": st.one_of(st.integers(-3 * g, g), st.sampled_from([0, -g, -2 * g, -1, 1, -g // 2, -g - 1, -g + 1]))})
     base = st.one_of(
-        st.integers(0, max_units * gran_per_unit),
-        st.integers(0, max_units).map(lambda u: u * gran_per_unit),
-        st.tuples(st.integers(0, max_units), st.sampled_from([1, gran_per_unit // 2, gran_per_unit - 1])).map(lambda t: t[0] * gran_per_unit + t[1] % gran_per_unit),
+        st.integers(0, max_units * g),
+        st.integers(0, max_units).map(lambda u: u * g),
+        st.tuples(st.integers(0, max_units), st.sampled_from([1, g // 2, g - 1])).map(lambda t: t[0] * g + t[1] % g),
+        anchor, anchor, anchor,
     )
     length = st.one_of(st.integers(1, maxlen), st.integers(1, maxlen // 1024).map(lambda k: k * 1024), st.integers(1, maxlen // 16).map(lambda k: k * 16),
-                       st.integers(1, 64))
+                       st.integers(1, 64), st.integers(1024, min(maxlen, 8192)))
     snap = st.one_of(st.none(), st.fixed_dictionaries({"edge": st.integers(0, 7), "extra": st.sampled_from([0, 0, 1, 15, 16, 17, -1, -16, 1024, -1024, 4096])}))
     return {"base": base, "len": length, "snap": snap, "cuts": st.lists(st.integers(0, 1 << 16), max_size=3), "seed": st.binary(min_size=8, max_size=8)}
 
@@ -400,8 +408,7 @@ def _iee_region(modes):
 def _iee_case(maxlen: int):
     geo = _geometry(1, 14, maxlen)
     common = {"origin": st.sampled_from([0x0, 0x04000000, 0x30000000, 0x7FFFE000, 0xFFF00000]), "ibkek1": st.binary(min_size=32, max_size=32),
-              "ibkek2": st.binary(min_size=32, max_size=32), "kb_page": st.integers(0, 0xFFFF), **geo,
-              "base": st.integers(0, 14), "cuts": st.lists(st.integers(0, 1 << 16), max_size=3)}
+              "ibkek2": st.binary(min_size=32, max_size=32), "kb_page": st.integers(0, 0xFFFF), **geo}
     return st.one_of(
         st.fixed_dictionaries({"regions": _regions(_iee_region(_IEE_MODELLED), 2, 3), **common}),
         st.fixed_dictionaries({"regions": _regions(_iee_region(_IEE_MODELLED), 2, 3), **common}),
@@ -417,6 +424,8 @@ def _iee_keys(r):
     if r.get("wrap") and mode == F.IEE_MODE_CTR_ADDR:
         # blob bytes 12..15 are the last nonce word byte-reversed: make it 0xFFFFFFxx so that + (address >> 4) wraps
         k2 = k2[:12] + bytes([k2[12]]) + b"\xff\xff\xff"
+    if mode in (F.IEE_MODE_XTS, F.IEE_MODE_BYPASS) and k1 == k2:
+        k2 = bytes([k2[0] ^ 1]) + k2[1:]  # XTS with identical key halves is refused by OpenSSL (IEEE 1619 forbids it): outside the domain
     return k1, k2
 
 
@@ -494,7 +503,7 @@ def run_iee(case, o: Oracle) -> None:
         if ok and len(ct) % 16 and any(r.hits(base + (len(ct) & ~15)) and r.mode == F.IEE_MODE_XTS for r in regs):
             ok = o.fail("iee_decrypt", "length", "partial AES block inside an XTS region") or False
         if ok:
-            _compare(o, "iee_decrypt", F.iee_decrypt(regs, base, ct), image, base, active)
+            _compare(o, "iee_decrypt", F.iee_decrypt(regs, base, ct), image, base, active, lambda a: any(r.hits(a) for r in regs))
         _split_check(o, "iee_split", ct, image, _cuts(case, n, 4096), lambda off, piece: iee.encrypt_image(piece, base + off))
     elif ct is not None:
         o.check("iee_nocrash", len(ct) in (n, _al16(n)), "length", "image %d bytes, ciphertext %d bytes" % (n, len(ct)))
@@ -536,7 +545,8 @@ def run_iee_cfg(case, o: Oracle, work: str) -> None:
     datas = []
     for d in case["data"]:
         pos += 4096 * d["gap"]
-        content = _content(bytes(d["seed"]), d["len"])
+        # first byte 0xFF: the data-blob loader sniffs text formats (S-record, Intel HEX); a file that is not valid UTF-8 is taken as raw binary
+        content = b"\xff" + _content(bytes(d["seed"]), d["len"])[1:]
         datas.append((pos, content))
         pos += (len(content) + 4095) // 4096 * 4096
     num = (lambda v: v) if case["num_form"] == "int" else hex
@@ -594,7 +604,7 @@ def run_iee_cfg(case, o: Oracle, work: str) -> None:
         ct = exported[off : off + _al16(len(content))]
         if not o.check("iee_decrypt", len(ct) == _al16(len(content)), "config_image_short", "data blob at 0x%x: %d of %d bytes in the exported image" % (addr, len(ct), len(content))):
             continue
-        _compare(o, "iee_decrypt", F.iee_decrypt(regs, addr, ct), content, addr, active)
+        _compare(o, "iee_decrypt", F.iee_decrypt(regs, addr, ct), content, addr, active, lambda a: any(r.hits(a) for r in regs))
 
 
 # ============================================================================================ BEE
